@@ -35,6 +35,8 @@ PROPERTY = "C05"
 RUNS = {"quick": 6_000, "thorough": 3_000_000}
 WALL = {"quick": 50, "thorough": 1500}
 BATCH = {"quick": 100, "thorough": 500}
+CPU_LIMIT_S = 60          # a generated program is a few hundred deliveries: milliseconds of CPU
+TIMEOUT_SIG = "run-does-not-terminate"
 RULE = (
     "each case is a generated stateless script model of 2-4 partitions (1-3 entities each) with directed PartitionLinks "
     "(min latency from {1ms,0.1s,0.7s,1s}), intra-partition traffic (lists and generator processes) and cross-partition "
